@@ -108,15 +108,18 @@ def read_chem_txt(path=None):
     return out
 
 
+def pinned_table():
+    """the NIST table as pinned in /verif (tools/pin_nist.py) - not the file of the tree under test"""
+    import json
+    path = os.path.join(os.path.dirname(os.path.abspath(__file__)), 'pinned', 'nist.json')
+    return {k: [tuple(r) for r in v] for k, v in json.load(open(path)).items()}
+
+
 def table():
-    """literals where present, chem.txt (own reader) for everything else"""
+    """literals where present, the pinned copy of the NIST table for every other element"""
     global _DATA
     if _DATA is None:
-        t = {}
-        try:
-            t.update(read_chem_txt())
-        except Exception:  # noqa
-            pass
+        t = pinned_table()
         t.update(ISOTOPES)
         _DATA = t
     return _DATA
